@@ -18,6 +18,7 @@ type Clause struct {
 	Props []string
 	Text  string
 	E     *Expr
+	Assumed bool // clause is not proved for its own function (listed in evidence), callers may use it
 	File  string
 	Line  int
 }
@@ -254,11 +255,14 @@ func (cs *ContractSet) loadFile(path string) error {
 			curLemma = lm
 		default:
 			label, props := "", []string(nil)
+			assumedClause := false
 			parseLabel := func(s string) string {
 				if m := labelRe.FindStringSubmatch(s); m != nil {
 					for i, p := range strings.Split(m[1], ",") {
 						p = strings.TrimSpace(p)
-						if i == 0 && !isPropID(p) {
+						if p == "assumed" {
+							assumedClause = true
+						} else if i == 0 && !isPropID(p) {
 							label = p
 						} else if p != "" {
 							props = append(props, p)
@@ -273,7 +277,7 @@ func (cs *ContractSet) loadFile(path string) error {
 				if err != nil {
 					return nil, fmt.Errorf("%s: %v", where, err)
 				}
-				return &Clause{Kind: kind, Label: label, Props: props, Text: text, E: e, File: path, Line: it.line}, nil
+				return &Clause{Kind: kind, Label: label, Props: props, Text: text, E: e, File: path, Line: it.line, Assumed: assumedClause}, nil
 			}
 			if curLemma != nil {
 				switch w {
